@@ -71,6 +71,8 @@ class Interp:
         self.cur_obj = None
         self.freed = set()
         self.heap = 0
+        self.globals = {}
+        self.noeval = {'LogPrintfFunc', 'LogPrintf', 'printf', 'fprintf'}
 
     # ---- memory ------------------------------------------------------------
     def fault(self, f, st, what):
@@ -145,6 +147,11 @@ class Interp:
         if c is None:
             raise AnalysisBroken('class %s is not known to the replay' % cls)
         rec = {'__cls__': cls}
+        for b in c.get('bases', ()):
+            if b in self.prog.classes:
+                base = self.new_record(b)
+                base.pop('__cls__', None)
+                rec.update(base)
         for fd in c.get('fields', ()):
             ct = fd.get('ct') or ''
             if fd.get('n') == '' and 'union' in (fd.get('t') or ''):
@@ -156,11 +163,105 @@ class Interp:
                 rec[fd['n']] = int(fd['initv_hex'], 16)
             elif fd.get('hasinit') and 'initv' in fd:
                 rec[fd['n']] = fd['initv'] if fd['initv'] is not None else 0
+            elif ct.startswith('std::map<') or ct.startswith('std::unordered_map<') or ct.startswith('std::set<') or ct.startswith('std::unordered_set<'):
+                rec[fd['n']] = {'__map__': True}
+            elif ct.startswith('std::pair<'):
+                rec[fd['n']] = {'__cls__': None, '__open__': True, 'first': 0, 'second': 0}
+            elif ct.startswith('std::function<'):
+                rec[fd['n']] = 0
+            elif ct.startswith('std::') and ('string' in ct):
+                rec[fd['n']] = P('str:empty', 0)
             elif ct in self.prog.classes:
                 rec[fd['n']] = self.new_record(ct)
+            elif '*' in ct and fd.get('hasinit') and fd.get('initv', 0) is None:
+                rec[fd['n']] = 0
             else:
                 rec[fd['n']] = 'uninit'
         return rec
+
+    def class_chain(self, cls):
+        out, work = [], [cls]
+        while work:
+            c = work.pop(0)
+            if c in out or c not in self.prog.classes:
+                continue
+            out.append(c)
+            work.extend(self.prog.classes[c].get('bases', ()))
+        return out
+
+    def find_method(self, cls, name, nparams):
+        """the final overrider of `name` for dynamic class cls: the first class of the chain (most derived first) that defines it with a body"""
+        for c in self.class_chain(cls):
+            for g in self.prog.by_name.get(c + '::' + name, ()):
+                if not g.parent_usr and g.body is not None and len(g.params) == nparams:
+                    return g
+        return None
+
+    def cstr(self, v):
+        """the text a pointer into a string region designates, or None"""
+        if isinstance(v, P) and isinstance(self.mem.get(v.r), list) and (v.r.startswith(('str', 'role:')) or v.r.startswith('local:')):
+            out = []
+            for c in self.mem[v.r][v.o:]:
+                if c == 0:
+                    return ''.join(out)
+                if not isinstance(c, int):
+                    return None
+                out.append(chr(c))
+        return None
+
+    def is_callable(self, v):
+        return callable(v) or (isinstance(v, tuple) and v and v[0] in ('lambda', 'bind', 'method'))
+
+    def invoke(self, f, st, fn, args):
+        """call a callable value: a python function (harness), a lambda closure, a bind expression or a member-function designator"""
+        if fn in (0, None, 'uninit'):
+            self.fault(f, st, 'an empty std::function is called (std::bad_function_call)')
+            raise _Abort()
+        if callable(fn):
+            return fn(*args)
+        if fn[0] == 'lambda':
+            _, lam, caps, this = fn
+            env = dict(caps)
+            for p_, a in zip(lam.params, args):
+                env[p_['d']] = wrap(a, p_.get('ct'))
+            saved = self.this
+            if this is not None:
+                self.this = this
+            self._depth = getattr(self, '_depth', 0) + 1
+            try:
+                self.run(lam, lam.body, env)
+            except _Return as r:
+                return r.v
+            finally:
+                self._depth -= 1
+                self.this = saved
+            return None
+        if fn[0] == 'bind':
+            _, target, bound = fn
+            actual = [args[b[1] - 1] if (isinstance(b, tuple) and b and b[0] == 'ph' and b[1] - 1 < len(args)) else b for b in bound]
+            if isinstance(target, tuple) and target[0] == 'method':
+                this = self.record_of(actual[0])
+                if this is None:
+                    raise AnalysisBroken('%s: bind of a member function to an object the replay does not hold (%s)' % (f.short, f.loc(st['i'])))
+                g = self.method_by_usr(target[1], this, target[2], len(actual) - 1)
+                return self.call(g, actual[1:], this=this)
+            return self.invoke(f, st, target, actual)
+        if fn[0] == 'method':
+            this = self.record_of(args[0])
+            g = self.method_by_usr(fn[1], this, fn[2], len(args) - 1)
+            return self.call(g, args[1:], this=this)
+        raise AnalysisBroken('%s: call of a value that is not callable (%s)' % (f.short, f.loc(st['i'])))
+
+    def method_by_usr(self, usr, this, name, nparams):
+        tg = [g for g in self.prog.by_usr.get(usr, ()) if not g.parent_usr and g.body is not None]
+        if tg and not tg[0].d.get('virtual'):
+            return tg[0]
+        g = self.find_method((this or {}).get('__cls__', ''), name, nparams) if this else None
+        if g is None and tg:
+            g = tg[0]
+        if g is None:
+            raise AnalysisBroken('member function %s has no body the replay can follow' % name)
+        return g
 
     def ref(self, rec):
         name = 'rec@%d' % id(rec)
@@ -178,6 +279,16 @@ class Interp:
         cls = st.get('ctor') or ''
         args = [self.ev(f, a, env) for a in st.get('args', [])]
         if cls not in self.prog.classes:
+            if cls.startswith(('std::vector<', 'std::deque<', 'std::list<')):
+                return list(args[0]) if args and isinstance(args[0], list) else []
+            if cls.startswith(('std::map<', 'std::unordered_map<', 'std::set<', 'std::unordered_set<')):
+                return dict(args[0]) if args and isinstance(args[0], dict) else {'__map__': True}
+            if cls.startswith(('std::basic_string', 'std::__cxx11::basic_string')):
+                return args[0] if args and args[0] is not None else P('str:empty', 0)
+            if len(args) >= 1 and cls.startswith('std::function'):
+                return args[0] if args[0] is not None else 0
+            if cls.startswith('std::function'):
+                return 0
             if len(args) == 1:
                 return args[0]
             if not args and cls and 'std::' not in cls:
@@ -192,24 +303,48 @@ class Interp:
             return self.ref(cp)
         rec = self.new_record(cls)
         self._keep.append(rec)
-        if tg:
-            g = tg[0]
-            cenv = {p_['d']: wrap(a, p_.get('ct')) for p_, a in zip(g.params, args)}
-            saved, self.this = self.this, rec
-            try:
-                for ini in g.d.get('inits', ()):
-                    if ini.get('written') and ini.get('init') is not None:
-                        rec[self.canon(rec, ini['field'])] = self.ev(g, ini['init'], cenv)
-                if g.body is not None:
-                    try:
-                        self.run(g, g.body, cenv)
-                    except _Return:
-                        pass
-            finally:
-                self.this = saved
-        elif args:
-            raise AnalysisBroken('%s: constructor of %s with arguments has no body the replay can follow (%s)' % (f.short, cls, f.loc(st['i'])))
+        self.run_ctor(f, st, rec, cls, tg[0] if tg else None, args)
         return self.ref(rec)
+
+    def run_ctor(self, f, st, rec, cls, g, args):
+        """run constructor g (or, when it has no body — an inherited or implicit constructor — the matching constructor of a base) on record rec"""
+        if g is None:
+            for b in self.prog.classes.get(cls, {}).get('bases', ()):
+                cands = [h for h in self.prog.by_name.get(b + '::' + b.split('::')[-1], ()) if h.d.get('ctor') and h.body is not None and len(h.params) == len(args)]
+                if cands:
+                    return self.run_ctor(f, st, rec, b, cands[0], args)
+                if b in self.prog.classes:
+                    return self.run_ctor(f, st, rec, b, None, args)
+            if args:
+                raise AnalysisBroken('%s: constructor of %s with arguments has no body the replay can follow (%s)' % (f.short, cls, f.loc(st['i'])))
+            return
+        cenv = {p_['d']: wrap(a, p_.get('ct')) for p_, a in zip(g.params, args)}
+        saved, self.this = self.this, rec
+        try:
+            for ini in g.d.get('inits', ()):
+                if ini.get('init') is None:
+                    continue
+                if ini.get('base'):
+                    ce = None
+                    for x in g.walk(ini['init']):
+                        if g.stmts[x]['k'] in ('CXXConstructExpr', 'CXXInheritedCtorInitExpr') and g.stmts[x].get('ctor') in self.class_chain(cls):
+                            ce = g.stmts[x]
+                            break
+                    if ce is not None:
+                        bargs = [self.ev(g, a, cenv) for a in ce.get('args', [])]
+                        btg = [h for h in self.prog.by_usr.get(ce.get('usr'), ()) if h.d.get('ctor') and h.body is not None]
+                        self.this = rec
+                        self.run_ctor(g, ce, rec, ce['ctor'], btg[0] if btg else None, bargs)
+                        self.this = rec
+                elif ini.get('written'):
+                    rec[self.canon(rec, ini['field'])] = self.ev(g, ini['init'], cenv)
+            if g.body is not None:
+                try:
+                    self.run(g, g.body, cenv)
+                except _Return:
+                    pass
+        finally:
+            self.this = saved
 
     # ---- calls -------------------------------------------------------------
     def call(self, f, args, this=None):
@@ -235,6 +370,8 @@ class Interp:
 
     def _call(self, f, st, env):
         name = (st.get('fn') or (st.get('callee') or '').split('<')[0].split('::')[-1]).split('<')[0]
+        if name in self.noeval:
+            return None         # calls whose arguments are not worth evaluating (logging)
         if (st.get('callee') or '').startswith('std::swap') and len(st.get('args', [])) == 2 and 'swap' not in self.hooks:
             la, lb = self.lv(f, st['args'][0], env), self.lv(f, st['args'][1], env)
             va, vb = self.read(f, st, la, env), self.read(f, st, lb, env)
@@ -247,10 +384,34 @@ class Interp:
             objv = self.ev(f, st['obj'], env)
         elif st['k'] == 'CXXOperatorCallExpr' and 'obj' not in st and args:
             objv = args[0]
-        if name in self.hooks:
+        ckey = '%s::%s' % ((st.get('cls') or '').split('<')[0].split('::')[-1], name)
+        if ckey in self.hooks or name in self.hooks:
             self.cur_obj = objv
-            return self.hooks[name](self, f, st, args)
+            return self.hooks[ckey if ckey in self.hooks else name](self, f, st, args)
+        cls_ = st.get('cls') or ''
+        if st['k'] == 'CXXOperatorCallExpr' and st.get('op') == '()' and (self.is_callable(objv) or objv in (0, None) and cls_.startswith('std::function')):
+            return self.invoke(f, st, objv, args)
+        if cls_.startswith('std::function') or cls_.startswith('std::basic_string') or cls_.startswith('std::__cxx11::basic_string'):
+            if name == 'operator=' and 'obj' in st:
+                v = args[0] if args else 0
+                self.write(f, st, self.lv(f, st['obj'], env), v if v is not None else 0, env)
+                return objv
+            if name == 'operator bool':
+                return int(objv not in (0, None, 'uninit'))
+        if name in ('operator==', 'operator!=') and st['k'] == 'CXXOperatorCallExpr' and len(args) + (1 if 'obj' in st else 0) == 2:
+            a_, b_ = ([objv] + args) if 'obj' in st else args
+            sa, sb = self.cstr(a_), self.cstr(b_)
+            if sa is not None and sb is not None:
+                return int((sa == sb) == (name == 'operator=='))
+            if (self.is_callable(a_) or a_ in (0, None)) and (self.is_callable(b_) or b_ in (0, None)):
+                eq = (a_ in (0, None)) == (b_ in (0, None)) and (a_ in (0, None) or a_ is b_)
+                return int(eq if name == 'operator==' else not eq)
         tg = [g for g in self.prog.by_usr.get(st.get('usr'), ()) if not g.parent_usr and g.body is not None]
+        if st.get('virt') and not st.get('qualified') and (name in self.inline or '*' in self.inline):
+            this_ = self.record_of(objv) if objv is not None else self.this
+            dyn = self.find_method((this_ or {}).get('__cls__', ''), name, len(args)) if isinstance(this_, dict) else None
+            if dyn is not None:
+                tg = [dyn]
         if tg and (name in self.inline or '*' in self.inline):
             g = tg[0]
             this = self.record_of(objv)
@@ -321,6 +482,23 @@ class Interp:
                 self.steps += 1
                 if self.steps > self.max_steps:
                     raise AnalysisBroken('%s: the replayed loop at %s does not terminate' % (f.short, f.loc(st['i'])))
+        elif k == 'CXXForRangeStmt':
+            seq = self.ev(f, st['range'], env)
+            if isinstance(seq, dict) and seq.get('__map__'):
+                items = [self.ref({'__cls__': None, '__open__': True, 'first': k_, 'second': v}) for k_, v in list(seq.items()) if k_ != '__map__']
+            elif isinstance(seq, list):
+                items = list(seq)
+            else:
+                raise AnalysisBroken('%s: range-for over something the replay does not hold as a sequence (%s)' % (f.short, f.loc(st['i'])))
+            for it_ in items:
+                env[st['lvd']] = self.ref(it_) if isinstance(it_, dict) else it_
+                try:
+                    self.run(f, st['body'], env)
+                except _Break:
+                    break
+                except _Continue:
+                    pass
+                self.steps += 1
         elif k == 'DoStmt':
             while True:
                 try:
@@ -382,7 +560,11 @@ class Interp:
         if k in ('ParenExpr',) or (k in q_CASTS and st.get('ck') in ('NoOp', None)):
             return self.lv(f, st['ch'][0], env)
         if k == 'DeclRefExpr':
+            if st.get('gl') and st['d'] not in env and st.get('q') in self.globals:
+                return ('global', st['q'])
             return ('var', st['d'])
+        if k == 'MemberExpr' and st.get('mk') == 'static' and st.get('q') in self.globals:
+            return ('global', st['q'])
         if k == 'MemberExpr':
             base = f.s(f.strip_casts(st['ch'][0])) if st['ch'] else None
             if base is None or base['k'] == 'CXXThisExpr':
@@ -409,6 +591,15 @@ class Interp:
             # in C++ these are lvalues: carry the operation out, then designate the operand
             self.ev(f, e, env)
             return self.lv(f, st['ch'][0], env)
+        if k == 'CXXOperatorCallExpr' and st.get('op') == '[]' and 'obj' in st and st.get('args'):
+            m = self.ev(f, st['obj'], env)
+            if isinstance(m, dict) and m.get('__map__'):
+                key = self.ev(f, st['args'][0], env)
+                key = self.cstr(key) if self.cstr(key) is not None else key
+                if not isinstance(key, (int, str)):
+                    raise AnalysisBroken('%s: map subscript with a key the replay keeps abstract (%s)' % (f.short, f.loc(e)))
+                m.setdefault(key, 0)
+                return ('dict', m, key)
         if k in q.CALL_KINDS or k in ('ConditionalOperator', 'MaterializeTemporaryExpr', 'CXXBindTemporaryExpr', 'ExprWithCleanups'):
             v = self.ev(f, e, env)          # a call / conditional yielding a reference: designate the value it denotes
             if self.record_of(v) is not None:
@@ -458,9 +649,11 @@ class Interp:
             if ('this.' + loc[1]) in self.mem:
                 return P('this.' + loc[1], 0)
             v = self.this.get(self.canon(self.this, loc[1]))
-            return self.ref(v) if isinstance(v, dict) and v is not self.this else v
+            return self.ref(v) if (isinstance(v, dict) and v is not self.this and '__map__' not in v) else v
         if loc[0] in ('dep', 'val'):
             return loc[1]
+        if loc[0] == 'global':
+            return self.globals[loc[1]]
         if loc[0] == 'dict':
             key = self.canon(loc[1], loc[2])
             if key not in loc[1]:
@@ -468,7 +661,7 @@ class Interp:
                     return 'uninit'         # a record of a class the replay has no definition of (system header): its fields are unknown values
                 raise AnalysisBroken('%s: field %s is not part of the replayed record (%s)' % (f.short, loc[2], f.loc(st['i'])))
             v = loc[1][key]
-            return self.ref(v) if isinstance(v, dict) else v
+            return self.ref(v) if (isinstance(v, dict) and '__map__' not in v) else v
         return self.load(f, st, loc[1])
 
     def write(self, f, st, loc, v, env):
@@ -476,6 +669,10 @@ class Interp:
             env[loc[1]] = v
         elif loc[0] == 'field':
             self.this[self.canon(self.this, loc[1])] = v
+        elif loc[0] == 'global':
+            self.globals[loc[1]] = v
+        elif loc[0] == 'val':
+            pass
         elif loc[0] == 'dep':
             raise AnalysisBroken('%s: store at an abstract index (%s)' % (f.short, f.loc(st['i'])))
         elif loc[0] == 'dict':
@@ -512,8 +709,33 @@ class Interp:
                     return env[st['d']]
                 if ('g:' + st['n']) in self.mem:
                     return P('g:' + st['n'], 0)
+                if (st.get('q') or '').startswith('std::placeholders::_'):
+                    return ('ph', int(st['q'].rsplit('_', 1)[1]))
+                if st.get('gl') and st.get('q') in self.globals:
+                    return self.globals[st['q']]
                 raise AnalysisBroken('%s: %s at %s is not known to the replay' % (f.short, st.get('n'), f.loc(e)))
+            if st.get('dk') == 'CXXMethod':
+                return ('method', st.get('usr'), st.get('n'))
+            if st.get('dk') == 'EnumConstant' and 'cv' in st:
+                return st['cv']
             return None
+        if k == 'LambdaExpr':
+            lam = self.prog.lambda_func(f, st)
+            if lam is None:
+                raise AnalysisBroken('%s: the lambda at %s has no body the replay can follow' % (f.short, f.loc(e)))
+            caps, this = {}, None
+            for c in st.get('caps', ()):
+                if c.get('this'):
+                    this = self.this
+                elif c.get('d') is not None:
+                    v = self.ev(f, c['init'], env) if c.get('init') is not None else env.get(c['d'])
+                    r_ = self.record_of(v)
+                    if r_ is not None and not c.get('ref') and f.s(f.strip_casts(c['init']))['k'] not in ('CXXConstructExpr',) and '*' not in (c.get('ct') or ''):
+                        cp = dict(r_)            # captured by copy
+                        self._keep.append(cp)
+                        v = self.ref(cp)
+                    caps[c['d']] = v
+            return ('lambda', lam, caps, this)
         if k == 'MemberExpr':
             return self.read(f, st, self.lv(f, e, env), env)
         if k == 'ArraySubscriptExpr':
@@ -535,6 +757,13 @@ class Interp:
                 self.write(f, st, loc, new, env)
                 return old if st.get('post') else new
             if op == '&':
+                sub = f.s(f.strip_casts(st['ch'][0]))
+                if sub is not None and sub['k'] == 'ParenExpr' and sub.get('ch'):
+                    sub = f.s(f.strip_casts(sub['ch'][0]))
+                if sub is not None and sub['k'] == 'MemberExpr' and sub.get('arrow') and sub.get('ch') and self.ev(f, sub['ch'][0], env) == 0:
+                    return 0            # the address of a member of *nullptr: never dereferenced by well-behaved code; keep it null
+                if sub is not None and sub['k'] == 'DeclRefExpr' and sub.get('dk') == 'CXXMethod':
+                    return ('method', sub.get('usr'), sub.get('n'))
                 loc = self.lv(f, st['ch'][0], env)
                 if loc[0] == 'mem':
                     return loc[1]
@@ -549,9 +778,9 @@ class Interp:
                 raise AnalysisBroken('%s: unsupported address-of at %s' % (f.short, f.loc(e)))
             if op == '*':
                 return self.read(f, st, self.lv(f, e, env), env)
-            v = self.ev(f, st['ch'][0], env)
             if op == '!':
                 return int(not self.truth(f, st['ch'][0], env))
+            v = self.ev(f, st['ch'][0], env)
             if isinstance(v, D):
                 return v
             if not isinstance(v, int):
@@ -585,6 +814,24 @@ class Interp:
             return 0
         if k == 'ImplicitValueInitExpr':
             return 0
+        if k == 'PredefinedExpr':
+            return None
+        if k in ('CXXDefaultArgExpr', 'CXXDefaultInitExpr', 'CXXScalarValueInitExpr'):
+            if k == 'CXXScalarValueInitExpr':
+                return 0
+            # the default expression itself is not part of the caller's syntax tree; for class types the library's defaults are value-initialised temporaries
+            # (Reason(), Trace()): build one; anything else stays unknown
+            ct = (st.get('ct') or st.get('t') or '').replace('const ', '').strip()
+            if ct in self.prog.classes:
+                rec = self.new_record(ct)
+                self._keep.append(rec)
+                ctor0 = [g for g in self.prog.by_name.get(ct + '::' + ct.split('::')[-1], ()) if g.d.get('ctor') and not g.params and g.body is not None]
+                if ctor0:
+                    self.run_ctor(f, st, rec, ct, ctor0[0], [])
+                return self.ref(rec)
+            if ct.startswith(('std::vector<', 'std::deque<')):
+                return []
+            return None
         if k == 'StringLiteral':
             name = 'str@%d:%d' % (st['l'], st['i'])
             if name not in self.mem:
@@ -711,6 +958,8 @@ def h_memset(it, f, st, args):
 
 def _vec(it, f, st):
     v = it.cur_obj
+    if isinstance(v, dict) and v.get('__map__'):
+        return v
     if not isinstance(v, list):
         raise AnalysisBroken('%s: container operation on something the replay does not hold as a sequence (%s)' % (f.short, f.loc(st['i'])))
     return v
@@ -728,7 +977,12 @@ def _elem(it, f, st, v, i, what, throws):
 def _push(it, f, st, a):
     v = _vec(it, f, st)
     r = it.record_of(a[0]) if a else None
-    v.append(dict(r) if r is not None else (a[0] if a else None))
+    elem = (st.get('cls') or '').split('<', 1)[-1].split(',')[0].strip()
+    by_pointer = elem.endswith('*') and not elem.startswith('std::pair')
+    if len(a) > 1:
+        v.append(tuple(a))          # emplace_back(x, y, ...): an element built in place, kept opaque
+    else:
+        v.append(dict(r) if (r is not None and not by_pointer) else (a[0] if a else None))
 
 
 def _numeric_limit(which):
@@ -742,12 +996,36 @@ def _numeric_limit(which):
     return h
 
 
+def _mlen(v):
+    return len(v) - (1 if isinstance(v, dict) and '__map__' in v else 0)
+
+
+def _clear(it, f, st, a):
+    v = _vec(it, f, st)
+    if isinstance(v, dict):
+        for k_ in [k_ for k_ in v if k_ != '__map__']:
+            del v[k_]
+    else:
+        v.clear()
+
+
+def _index(it, f, st, a, what, throws):
+    v = _vec(it, f, st)
+    if isinstance(v, dict):
+        key = it.cstr(a[-1]) if it.cstr(a[-1]) is not None else a[-1]
+        if throws and key not in v:
+            it.fault(f, st, 'map::at() with a key that is not present: std::out_of_range is thrown')
+            return None
+        return v.setdefault(key, 0)
+    return _elem(it, f, st, v, a[-1], what, throws)
+
+
 VECTOR_HOOKS = {
-    'at': lambda it, f, st, a: _elem(it, f, st, _vec(it, f, st), a[-1], 'at', True),
-    'operator[]': lambda it, f, st, a: _elem(it, f, st, _vec(it, f, st), a[-1], 'operator[]', False),
-    'size': lambda it, f, st, a: len(_vec(it, f, st)),
-    'empty': lambda it, f, st, a: int(not _vec(it, f, st)),
-    'clear': lambda it, f, st, a: _vec(it, f, st).clear(),
+    'at': lambda it, f, st, a: _index(it, f, st, a, 'at', True),
+    'operator[]': lambda it, f, st, a: _index(it, f, st, a, 'operator[]', False),
+    'size': lambda it, f, st, a: _mlen(_vec(it, f, st)),
+    'empty': lambda it, f, st, a: int(_mlen(_vec(it, f, st)) == 0),
+    'clear': _clear,
     'reserve': lambda it, f, st, a: None,
     'shrink_to_fit': lambda it, f, st, a: None,
     'push_back': _push,
